@@ -13,7 +13,7 @@ from engine.srcmodel import walk_shallow, norm, parent
 from engine.util import call_name, contains, in_body
 from ._c01_util import (loads, load_ids, read_reserved, key_templates, literal_pieces,
                         dict_key_exprs, template_holes, always_raises)
-from .c01 import r4_fresh_name_generator, _bind_args
+from .c01 import r4_fresh_name_generator, _bind_args, _view, _plain
 
 PROPERTY = "C05"
 IR = "pyrates/ir/circuit.py"
@@ -372,11 +372,169 @@ def _is_counter(ctx, f, hole: ast.AST) -> bool:
     return True
 
 
+def _calls_of(ctx, f):
+    """(call, targets, how) of every call in f; for an inlined view (not part of the call graph) resolved on the fly."""
+    if f in ctx.cg.calls:
+        return ctx.cg.calls[f]
+    out = []
+    for c in walk_shallow(f.node):
+        if isinstance(c, ast.Call):
+            try:
+                targets, how = ctx.cg.resolve_call(f, c)
+            except Exception:
+                targets, how = [], "unresolved"
+            out.append((c, targets, how))
+    return out
+
+
+class _Frame:
+    """A function (or inlined view) together with what its parameters are bound to in the calling frame."""
+
+    def __init__(self, f, binding=None, parent=None, site=None):
+        self.f, self.binding, self.parent, self.site = f, binding or {}, parent, site
+
+    @property
+    def depth(self):
+        return 0 if self.parent is None else self.parent.depth + 1
+
+
+def _resolve_value(ctx, fr: _Frame, e: ast.AST, depth: int = 0) -> List[Tuple[ast.AST, _Frame]]:
+    """The expressions a value may come from, following local names through all their reaching definitions (plain
+    assignments, tuple unpacking of a tuple literal — also `a, b = T[:2]` — ) and parameters to the caller's arguments.
+    Each result is (expression, frame in which its names are to be read)."""
+    if depth > 8 or not (isinstance(e, ast.Name) and isinstance(e.ctx, ast.Load)):
+        return [(e, fr)]
+    try:
+        defs = ctx.rd(fr.f).defs_reaching(e)
+    except Exception:
+        defs = []
+    if not defs:
+        return [(e, fr)]
+    out: List[Tuple[ast.AST, _Frame]] = []
+    for d in defs:
+        if isinstance(d, ast.arguments):
+            if e.id in fr.binding and fr.parent is not None:
+                out += _resolve_value(ctx, fr.parent, fr.binding[e.id], depth + 1)
+            else:
+                out.append((e, fr))
+            continue
+        v = assigned_value(d, e.id)
+        if v is not None:
+            out += _resolve_value(ctx, fr, v, depth + 1) if isinstance(v, ast.Name) else [(v, fr)]
+            continue
+        got = False
+        if isinstance(d, ast.Assign):
+            for t in d.targets:
+                if isinstance(t, (ast.Tuple, ast.List)) and not any(isinstance(x, ast.Starred) for x in t.elts):
+                    idx = next((i for i, x in enumerate(t.elts) if isinstance(x, ast.Name) and x.id == e.id), None)
+                    if idx is None:
+                        continue
+                    src = d.value
+                    if isinstance(src, ast.Subscript) and isinstance(src.slice, ast.Slice) and src.slice.step is None \
+                            and (src.slice.lower is None or (isinstance(src.slice.lower, ast.Constant) and src.slice.lower.value == 0)):
+                        src = src.value         # a prefix of the tuple: element idx is element idx of the whole
+                    for x, xfr in _resolve_value(ctx, fr, src, depth + 1):
+                        if isinstance(x, (ast.Tuple, ast.List)) and idx < len(x.elts) \
+                                and not any(isinstance(y, ast.Starred) for y in x.elts):
+                            el = x.elts[idx]
+                            out += _resolve_value(ctx, xfr, el, depth + 1) if isinstance(el, ast.Name) else [(el, xfr)]
+                            got = True
+        if not got:
+            out.append((e, fr))
+    return out
+
+
+def _frame_templates(ctx, fr: _Frame, e: ast.AST, depth: int = 0) -> List[Tuple[str, bool]]:
+    """Name templates (text with ⟨hole⟩s, all holes filled by the compiler itself?) an expression may evaluate to, names
+    followed through frames (see _resolve_value); string-valued locals inside f-strings are spliced in."""
+    from ._c01_util import expand_fstring
+    out: List[Tuple[str, bool]] = []
+    for x, xfr in _resolve_value(ctx, fr, e):
+        if depth > 6:
+            out.append(("⟨" + _plain(ast.unparse(x)) + "⟩", False))
+        elif isinstance(x, ast.Constant) and isinstance(x.value, str):
+            out.append((x.value, True))
+        elif isinstance(x, ast.Constant):
+            out.append((str(x.value), True))
+        elif isinstance(x, ast.IfExp):
+            out += _frame_templates(ctx, xfr, x.body, depth + 1) + _frame_templates(ctx, xfr, x.orelse, depth + 1)
+        elif isinstance(x, ast.JoinedStr) or (isinstance(x, ast.BinOp) and isinstance(x.op, ast.Add)):
+            parts = []
+            if isinstance(x, ast.JoinedStr):
+                for v in x.values:
+                    if isinstance(v, ast.Constant):
+                        parts.append([(str(v.value), True)])
+                    elif v.format_spec is None and v.conversion == -1:
+                        parts.append(_hole_templates(ctx, xfr, v.value, depth + 1))
+                    else:
+                        parts.append([("⟨" + _plain(ast.unparse(v.value)) + "⟩", _is_counter_in(ctx, xfr, v.value))])
+            else:
+                parts = [_frame_templates(ctx, xfr, x.left, depth + 1), _frame_templates(ctx, xfr, x.right, depth + 1)]
+            acc = [("", True)]
+            for alts in parts:
+                acc = [(a + b, ia and ib) for a, ia in acc for b, ib in alts][:32]
+            out += acc
+        else:
+            out.append(("⟨" + _plain(ast.unparse(x)) + "⟩", _is_counter_in(ctx, xfr, x)))
+    seen, uniq = set(), []
+    for t in out:
+        if t not in seen:
+            seen.add(t)
+            uniq.append(t)
+    return uniq
+
+
+def _hole_templates(ctx, fr: _Frame, h: ast.AST, depth: int) -> List[Tuple[str, bool]]:
+    """A hole of an f-string: spliced in when it is a local that holds a string template, otherwise kept as a hole."""
+    res = _resolve_value(ctx, fr, h)
+    if all(isinstance(x, (ast.JoinedStr, ast.IfExp)) or (isinstance(x, ast.Constant) and isinstance(x.value, str)) for x, _ in res):
+        out: List[Tuple[str, bool]] = []
+        for x, xfr in res:
+            out += _frame_templates(ctx, xfr, x, depth + 1)
+        return out
+    out = []
+    for x, xfr in res:
+        t = ("⟨" + _plain(ast.unparse(x)) + "⟩", _is_counter_in(ctx, xfr, x))
+        if t not in out:
+            out.append(t)
+    return out
+
+
+def _is_counter_in(ctx, fr: _Frame, x: ast.AST) -> bool:
+    """_is_counter, with names followed into the frame that defines them."""
+    if isinstance(x, ast.Name):
+        return all(isinstance(y, (ast.Name, ast.Constant, ast.BinOp)) and _is_counter(ctx, yfr.f, y)
+                   for y, yfr in _resolve_value(ctx, fr, x))
+    return _is_counter(ctx, fr.f, x)
+
+
+def _keys_in_frames(ctx, fr: _Frame, dict_name: str, top_stmt=None, seen=None) -> List[Tuple[ast.AST, _Frame, ast.stmt]]:
+    """Key expressions stored into the dict `dict_name` of frame fr — in the function itself and, through every call that
+    hands the dict on, in the callees (three levels) — each with the frame it is written in and the statement of the
+    outermost frame that causes the store."""
+    seen = seen if seen is not None else set()
+    out = [(k, fr, top_stmt or st) for k, st in dict_key_exprs(fr.f, dict_name)]
+    if fr.depth >= 3:
+        return out
+    for call, targets, how in _calls_of(ctx, fr.f):
+        if how == "by-name":
+            continue
+        for t in targets:
+            bound = _bind_args(t, call)
+            for p_, a in bound.items():
+                if isinstance(a, ast.Name) and a.id == dict_name and (t, p_, id(call)) not in seen:
+                    seen.add((t, p_, id(call)))
+                    sub = _Frame(t, bound, fr, call)
+                    st = top_stmt or stmt_of(ctx.cfg(fr.f), call)
+                    out += _keys_in_frames(ctx, sub, p_, st, seen)
+    return out
+
+
 def _callee_keys(ctx, f, dict_name: str) -> List[Tuple[ast.AST, ast.stmt]]:
     """Keys stored into `dict_name` by a callee that receives it as an argument: `g(..., arg_dict=D, idx_str=K)` with
     `arg_dict[idx_str] = …` inside g  ->  (K at the call site, the call statement)."""
     out = []
-    for call, targets, _how in ctx.cg.calls.get(f, ()):
+    for call, targets, _how in _calls_of(ctx, f):
         for t in targets:
             bound = _bind_args(t, call)
             for p, a in bound.items():
@@ -441,22 +599,41 @@ def r3_reserved_parts_cover_generated_names(ctx, rid):
                                   f"raising collision test: a declared variable of that name is overwritten", facts, label=label)
     # ---- (B) names the compiler invents inside generated edge operators (namespace shared with user-chosen names)
     n_ops = 0
-    for f in ctx.repo.all_functions([IR]):
+    # pass 1: every function as written; a creation whose dicts are handed in as parameters (the operator is created by an
+    # extracted helper) is deferred to pass 2, where it is looked at inside its callers with the private helpers spliced in
+    funcs = ctx.repo.all_functions([IR])
+    done, deferred = set(), {}
+    work = [(f0, f0) for f0 in funcs] + [(f0, None) for f0 in funcs]
+    for f0, f in work:
+        if f is None:
+            if not deferred:
+                break
+            f = _view(ctx, f0)
+            if f is f0:
+                continue
         for call in [c for c in walk_shallow(f.node) if isinstance(c, ast.Call) and call_name(c) == "add_op"]:
             kw = {k.arg: k.value for k in call.keywords}
             if not ({"variables", "inputs", "equations"} <= set(kw)):
                 continue
-            n_ops += 1
+            pos = (call.lineno, call.col_offset)
+            if pos in done or (f is not f0 and pos not in deferred):
+                continue
             dicts = [v.id for v in (kw["variables"], kw["inputs"]) if isinstance(v, ast.Name)]
             if len(dicts) != 2:
                 raise AnalysisError(f"{rid}: {f.qual}: `variables=`/`inputs=` of the generated operator are not local dict names")
+            if any(d in f.params and not dict_key_exprs(f, d) for d in dicts):
+                deferred[pos] = f0
+                continue
+            done.add(pos)
+            deferred.pop(pos, None)
+            n_ops += 1
             templates: Dict[str, Tuple[ast.AST, ast.stmt, bool]] = {}
+            top = _Frame(f)
             for dn in dicts:
-                for kexpr, kst in dict_key_exprs(f, dn) + _callee_keys(ctx, f, dn):
-                    for tpl, node in key_templates(ctx, f, kexpr):
-                        holes = template_holes(node)    # a bare expression is one hole: the name is taken from data
-                        invented = all(_is_counter(ctx, f, h) for h in holes)
-                        templates.setdefault(tpl, (node, kst, invented))
+                for kexpr, kfr, kst in _keys_in_frames(ctx, top, dn):
+                    for tpl, invented in _frame_templates(ctx, kfr, kexpr):
+                        # a bare expression is one hole: the name is taken from data
+                        templates.setdefault(tpl, (kexpr, kst, invented))
             user_named = sorted(t for t, (_n, _s, inv) in templates.items() if not inv)
             if not user_named:
                 raise AnalysisError(f"{rid}: {f.qual}: no user-chosen name found in the generated operator's namespace (unrecognised form)")
@@ -480,6 +657,10 @@ def r3_reserved_parts_cover_generated_names(ctx, rid):
                                   f"contains a reserved sub-string, so a source or target variable the user called `{tpl.split('⟨')[0]}…` "
                                   f"is the same name as the connection weight (`inp = weight * weight` for a source variable `weight`)",
                                   facts, label=label)
+    if deferred:
+        g = next(iter(deferred.values()))
+        raise AnalysisError(f"{rid}: {g.qual}: the generated operator's `variables=`/`inputs=` are parameters and no caller could be "
+                            f"analysed with this helper spliced in (unrecognised form)")
     ctx.require(n_ops >= 1, f"{rid}: no generated operator (`add_op(..., inputs=, equations=, variables=)`) found in {IR}")
 
 
